@@ -74,7 +74,7 @@ Theorem named_detected : forall c, pv_named_ok c = true ->
   exists lw h sz d ld,
     hdr_of c m = Some h /\ size_of c m = Some sz /\ write_props c m h = Some (Some (m, m, lw, h)) /\
     read_sized c bv h sz 0 = Some (Some (d, d, ld)) /\ (d = m -> ld = lw) /\ hdr_of c d = Some h /\ size_of c d = Some sz /\
-    read_sized c bv h sz m = Some (Some (m, m, lw)).
+    read_sized c bv h sz m = Some (Some (m, m, lw)) /\ read_empty c bv h m = Some (Some m).
 Proof.
   intros c Hok bv m Hbv Hm.
   unfold pv_named_ok in Hok. rewrite forallb_forall in Hok. specialize (Hok bv Hbv).
@@ -83,6 +83,7 @@ Proof.
   destruct (hdr_of c m) as [h|]; try discriminate.
   destruct (size_of c m) as [sz|]; try discriminate.
   destruct (write_props c m h) as [[[[[r w] lw] h'']|]|] eqn:Hwp; try discriminate.
+  apply andb_true_iff in Hok. destruct Hok as [Hok H12].
   apply andb_true_iff in Hok. destruct Hok as [Hok H4].
   apply andb_true_iff in Hok. destruct Hok as [Hok H3].
   apply andb_true_iff in Hok. destruct Hok as [Hok H0].
@@ -96,9 +97,10 @@ Proof.
   apply andb_true_iff in H7. destruct H7 as [H7 H8].
   apply andb_true_iff in H4. destruct H4 as [H4 H11].
   apply andb_true_iff in H4. destruct H4 as [H9 H10].
-  apply N.eqb_eq in H0, H1, H2, H5, H7, H8, H9, H10, H11.
+  destruct (read_empty c bv h m) as [[re|]|] eqn:Hre; try discriminate.
+  apply N.eqb_eq in H0, H1, H2, H5, H7, H8, H9, H10, H11, H12.
   subst. exists lw, h, sz, d, ld.
-  refine (conj _ (conj _ (conj _ (conj _ (conj _ (conj _ (conj _ _))))))); auto.
+  refine (conj _ (conj _ (conj _ (conj _ (conj _ (conj _ (conj _ (conj _ _)))))))); auto.
   intros Hdm. subst d. rewrite N.eqb_refl in H6. cbn in H6. apply N.eqb_eq in H6. exact H6.
 Qed.
 
